@@ -36,6 +36,14 @@ def points(ctx):
 
 def eq(ctx, rule, key, got, want, site="", what="", nonzero=()):
     """Obligation: value graph *got* equals the specified expression *want*."""
+    from ptstat.symval import SymObj as _SO
+    if got is None or isinstance(got, (str, _SO, dict, list)) and not isinstance(want, type(got)):
+        # not a number at all (None where a value is specified, an object, ...): the obligation fails, it is not an analysis problem
+        if got is None and want is None:
+            ctx.ok(rule, key, site=site, sample={"extracted": "None", "specified": "None"})
+            return True
+        ctx.fail(rule, key, f"{what or 'extracted value'} is {_s(got, 120)} where {_s(want, 160)} is specified", site=site)
+        return False
     try:
         ok, how, wit = algebra.equal(got, want, seed=ctx.seed, points=points(ctx), nonzero=nonzero)
     except AnalysisError as exc:
